@@ -28,7 +28,9 @@ func init() { gens["c10"] = genC10 }
 
 var (
 	c10Nums = []string{"0", "1", "10", "65535", "65536", "65537", "99999", "4294967296", "18446744073709551616",
-		"+1", "-1", "", "007", "00065535", "000065536", "1_0", "0x10", "1e3", " 1", "1.0", "\xef\xbc\x91", "٣"}
+		"+1", "-1", "", "007", "00065535", "000065536", "1_0", "0x10", "1e3", " 1", "1.0", "\xef\xbc\x91", "٣",
+		// N2: around the 8 / 12 / 15-bit bounds a narrower integer type would impose
+		"255", "256", "300", "1024", "4095", "4096", "32767", "32768", "65534"}
 	c10Hosts = []string{"example.net", "a", "a.b.c", "mail.example.net", "new-cname.example.org", "xn--e1afmkfd.xn--p1ai",
 		"1host.2", "UPPER.Case", "h-", "-h", "a..b", ".a", "a.", ".", "", "a_b.c", "a b", "ex\xc3\xa4mple.org", "a.\xff",
 		strings.Repeat("a", 63), strings.Repeat("a", 64), strings.Repeat("a.", 31) + "a", strings.Repeat("a.", 31) + "ab",
@@ -150,13 +152,16 @@ func c10ValueFor(r *rng, t string) string {
 		}
 	case "SRV":
 		n := pick(r, []int{4, 4, 4, 4, 3, 5, 2, 1, 6})
+		if r.chance(1, 30) {
+			n = n2Above(r, 7, 80) // many surplus fields
+		}
 		fs := make([]string, n)
 		for i := range fs {
 			switch {
 			case i < 3:
 				fs[i] = pick(r, c10Nums)
 				if r.chance(2, 3) {
-					fs[i] = pick(r, []string{"0", "1", "80", "443", "65535"})
+					fs[i] = c10GoodNum(r, []string{"0", "1", "80", "443", "65535"})
 				}
 			case i == 3:
 				fs[i] = c10Target(r)
@@ -168,13 +173,16 @@ func c10ValueFor(r *rng, t string) string {
 		return strings.Join(fs, " ")
 	case "HTTPS", "SVCB":
 		n := pick(r, []int{2, 2, 3, 3, 4, 5, 1, 6})
+		if r.chance(1, 12) {
+			n = 2 + n2Above(r, 4, 80) // many parameters (distinct keys below)
+		}
 		fs := make([]string, n)
 		for i := range fs {
 			switch i {
 			case 0:
 				fs[i] = pick(r, c10Nums)
 				if r.chance(2, 3) {
-					fs[i] = pick(r, []string{"0", "1", "32", "65535"})
+					fs[i] = c10GoodNum(r, []string{"0", "1", "32", "65535"})
 				}
 			case 1:
 				fs[i] = c10Target(r)
@@ -183,15 +191,44 @@ func c10ValueFor(r *rng, t string) string {
 				if r.chance(2, 3) {
 					fs[i] = pick(r, []string{"alpn=h3", "alpn=h2", "port=443", "a=1", "a=2", "b=1", "zz=", "=v"})
 				}
+				if n > 6 && r.chance(3, 4) {
+					fs[i] = fmt.Sprintf("key%d=%d", 65000+i, r.n(1000))
+				}
 			}
 		}
 
 		return strings.Join(fs, " ")
 	case "TXT":
+		if r.chance(1, 10) {
+			// a long text (TXT values have no length bound in the rule syntax): just above 255 / 256 / 300 / 1024 / 4096 / 65535 bytes
+			return c10LongText(r, n2Above(r, 64, 70000))
+		}
+
 		return pick(r, []string{"hello", "", "hello world", "v=spf1 -all", "a;b;c", "\x00\xff", "."})
 	default:
 		return pick(r, []string{"", "x", "1.2.3.4", "example.net", "a b"})
 	}
+}
+
+// c10GoodNum: a number every 16-bit field accepts: the family's own few values or one of the N2 pool (0 … 65535, with
+// values above 255, 4095 and 32767).
+func c10GoodNum(r *rng, own []string) string {
+	if r.chance(1, 2) {
+		return pick(r, own)
+	}
+
+	return n2U16(r)
+}
+
+func c10LongText(r *rng, n int) string {
+	var sb strings.Builder
+	words := []string{"v=spf1", "include:_spf.example.net", "-all", "k=rsa", "p=MIGfMA0GCSqGSIb3DQEBAQUAA4GNADCBiQKBgQC", "hello", "a;b", "="}
+	for sb.Len() < n {
+		sb.WriteString(pick(r, words))
+		sb.WriteByte(' ')
+	}
+
+	return sb.String()[:n]
 }
 
 func c10Value(r *rng) string {
